@@ -145,6 +145,10 @@ fn run_scenario(sc: &Value, idx: usize, bin: &Path, scratch: &Path, local: bool)
         let n = r.usize(1..4);
         let mut bps: Vec<Value> = (0..n).map(|_| refs[r.usize(..refs.len())].clone()).collect();
         if !bps.iter().any(|b| !b.is_string()) { bps[0] = refs[idx % 3].clone(); }
+        // a reference list enumerated by LocalPackaging.tla
+        if let Some(rs) = sc["refs"].as_array() {
+            bps = rs.iter().map(|x| match x.as_str().unwrap() { "current" => json!({"current": true}), "other" => json!("heroku/procfile"), ws => json!({"workspace": ws.trim_start_matches("ws:")}) }).collect();
+        }
         cfg["buildpacks"] = json!(bps);
         let cargo = Command::new("rustup").args(["which", "cargo"]).output().ok().filter(|o| o.status.success()).map(|o| String::from_utf8_lossy(&o.stdout).trim().to_string()).unwrap_or_else(|| "/usr/bin/cargo".into());
         toolchain_bin = Path::new(&cargo).parent().unwrap().to_string_lossy().to_string();
@@ -392,6 +396,14 @@ fn main() {
     // a sample of the scenarios again, with locally packaged buildpacks (really compiled)
     let n_local: usize = std::env::var("VERIF_LOCAL").ok().and_then(|s| s.parse().ok()).unwrap_or(48);
     let local_scs: Vec<Value> = if single { vec![] } else { raw.iter().step_by((raw.len() / n_local.max(1)).max(1)).take(n_local).cloned().map(|mut v| { v["local"] = json!(true); v }).collect() };
+    let mut local_scs = local_scs;
+    if let Some(lp) = std::env::var_os("VERIF_LP") {
+        for c in read_tlc_tagged(Path::new(&lp), "LP") {
+            local_scs.push(json!({"local": true, "refs": c["refs"], "panics": false,
+                "script": [{"step": "build", "outcome": {"expected": "Success", "pack": "ok", "preproc": false}}, {"step": "return", "outcome": "-"}],
+                "trace": [{"cmd": "pack-build", "arg": "img"}, {"cmd": "rmi", "arg": "img"}, {"cmd": "volume-rm", "arg": "vols"}]}));
+        }
+    }
     let local_results = par_map(&local_scs, threads(), |i, sc| run_scenario(sc, i, &bin, &scratch, true));
     let n_plain = raw.len();
     let mut raw = raw;
